@@ -78,6 +78,8 @@ PROPS = {
             {"name": "lru_conformance", "repo_crate": "storage", "package": "qbice_storage", "test": "verif_lru_conformance", "env": {"VERIF_LRU_DEPTH": 3},
              "ok_re": r"VERIF-LRU-CONFORMANCE ok sequences=(\d+)", "bad_re": r"VERIF-LRU-CONFORMANCE VIOLATION.*", "tiers": ("quick", "thorough"),
              "bound": "ALL sequences of <= 3 Lru operations (9 kinds) over 3 keys x 4 regions x capacity {0,1}: every clause of the abstract Lru contract assumed by the Policy proof, evaluated on the real Lru after every call (pointer discipline included)"},
+            {"name": "cache_histories", "bin": "replay_c16", "crate": "replay", "tiers": ("quick", "thorough"),
+             "bound": "the real public TinyLFU, single-threaded, Piggyback maintenance, both unpin strategies: 60 seeded random histories of 1500 operations at capacities 1..8, 12 seeded random phase histories at capacities 96/160 (above the maintenance slack, so the bound is not vacuous), directed histories (empty probation at unpin, re-pin before a stale unpin, long-lived pin, popular newcomers against pinned victims, parked entries replaced within one maintenance batch at capacities 100/200); after every phase: pinned entries readable with their latest value, removed entries gone, residents <= capacity + pinned + 74"},
             {"name": "lru_conformance_miri", "repo_crate": "storage", "package": "qbice_storage", "test": "verif_lru_conformance", "env": {"VERIF_LRU_DEPTH": 2}, "miri": True,
              "ok_re": r"VERIF-LRU-CONFORMANCE ok sequences=(\d+)", "bad_re": r"VERIF-LRU-CONFORMANCE VIOLATION.*", "tiers": ("thorough",), "timeout": 7000,
              "bound": "same run at depth 2 under Miri: use-after-free / double free / invalid pointer use / leaks in the unsafe list code"},
@@ -90,6 +92,7 @@ PROPS = {
             "Sketch and the hasher are opaque for the Policy proof (any frequency estimate is safe); sketch.rs itself is verified for index/overflow safety under `global size_of usize == 8`",
             "BloomFilter::clear and CountMinSketch::reset use iter_mut (no usable Verus model): contract trusted in Verus, checked by Kani on one word",
             "Policy::new (f64 arithmetic) is not under contract: the invariant's capacity relations are a precondition",
+            "dispatcher (tiny_lfu.rs process_write / process_message): proved that every message is delivered to its handler with its own key whatever the storage map answers (struct stand-in TinyLFUInner: storage is opaque with arbitrary query results; remove_closure is external with the relation owner_answers); process_policy_message (buffer pop / drain loops), try_maintenance and the buffers themselves are not under contract",
             "concurrency is NOT decided: write_buffer/read_buffer lag between storage map and policy, DedicatedThread mode, the lock-table sentence of the property (query_lock_manager.rs)",
         ],
     },
